@@ -540,7 +540,7 @@ func controllerPoint(r *rand.Rand, kind string, profile string) (map[string]inte
 	switch {
 	case c < wGeneric:
 		del := deletionChoices[[]int{0, 0, 1, 2, 2, 2, 3, 4}[r.Intn(8)]]
-		gen := generationChoices[[]int{0, 3, 3, 1, 2, 4, 4, 4, 5, 6, 7}[r.Intn(11)]]
+		gen := generationChoices[[]int{0, 3, 3, 1, 2, 4, 4, 4, 5, 6, 7, 8, 9, 11, 12}[r.Intn(15)]]
 		var std []interface{}
 		for n := r.Intn(3); n > 0; n-- {
 			std = append(std, cond(stdTypes[r.Intn(3)], truthValues[r.Intn(3)], "R"))
